@@ -95,7 +95,8 @@ def _collect_imports(path, data, files, depth=0):
 
 def ui_fail_programs():
     """Programs of /repo/ui-tests/fail (with their --max-stack directive and
-    imported files); programs needing other command-line arguments are skipped."""
+    imported files); programs needing other command-line arguments, or importing
+    themselves, are skipped."""
     out, skipped = [], 0
     base = os.path.join(UI, "fail")
     for dp, _, fns in sorted(os.walk(base)):
@@ -118,6 +119,8 @@ def ui_fail_programs():
             files = {}
             if ok and b"import" in data:
                 ok = _collect_imports(p, data, files)
+            if fn in files:
+                ok = False      # imports itself: the harness loads a second copy, the binary reuses the first
             if not ok:
                 skipped += 1
                 continue
